@@ -1540,7 +1540,6 @@ func oracle(c Case, o *h.Obs) *h.Fail {
 	return nil
 }
 
-
 // ---------------------------------------------------- sub-check "stateless"
 
 // HistCase: one comparison site (a function comparing its parameter with a literal) evaluated for
